@@ -893,6 +893,21 @@ type c08Notifier struct {
 
 	mu       sync.Mutex
 	failAdds int
+	phase    int // harness phase, set while the network is down
+	lastAt   int // phase of the latest refusal
+}
+
+func (n *c08Notifier) setPhase(p int) {
+	n.mu.Lock()
+	n.phase = p
+	n.mu.Unlock()
+}
+
+func (n *c08Notifier) last() int {
+	n.mu.Lock()
+	defer n.mu.Unlock()
+
+	return n.lastAt
 }
 
 func (n *c08Notifier) NotifyLinkFailEvent(key HtlcKey, _ HtlcInfo,
@@ -905,6 +920,7 @@ func (n *c08Notifier) NotifyLinkFailEvent(key HtlcKey, _ HtlcInfo,
 	}
 	n.mu.Lock()
 	n.failAdds++
+	n.lastAt = n.phase
 	n.mu.Unlock()
 }
 
